@@ -665,6 +665,19 @@ def _sqlite_window_binding(e, fi, prog, which):
         v = single_def(fi, e.id)
         if v is not None:
             e = v
+    # (p.timestamp() * S if p else None) or SENTINEL : the `or` also replaces a timestamp of exactly 0.0 (the epoch), which is
+    # falsy -- harmless when the sentinel is 0 too, wrong otherwise
+    if isinstance(e, ast.BoolOp) and isinstance(e.op, ast.Or) and len(e.values) == 2 and isinstance(e.values[0], ast.IfExp):
+        inner = e.values[0]
+        gi = _guard_param(inner.test, fi)
+        if gi is not None:
+            none_side = inner.orelse if gi[1] else inner.body
+            if isinstance(none_side, ast.Constant) and none_side.value is None:
+                sent_ = const_value(e.values[1], fi, prog)
+                r = _sqlite_window_binding(ast.IfExp(test=inner.test, body=inner.body if gi[1] else e.values[1], orelse=e.values[1] if gi[1] else inner.orelse), fi, prog, which)
+                if r is not None and sent_ not in (0, 0.0):
+                    return r[0], r[1], ("falsy-zero", sent_)
+                return r
     if not isinstance(e, ast.IfExp):
         return None
     g = _guard_param(e.test, fi)
@@ -743,6 +756,10 @@ def pred_sqlite(prog, rep, rule="PRED", scale_expected=1000000):
                 bad = True
                 continue
             p, scale, sent = b
+            if isinstance(sent, tuple) and sent[0] == "falsy-zero":
+                rep.violation(rule, fn, f"binding of ?{other.index}", f"`{norm(s.bindings[other.index])[:80]}` picks the sentinel with `or`: a window edge exactly at the Unix epoch converts to 0.0, which is falsy, so it is replaced by the sentinel {sent[1]} (= no edge): the read returns / counts every event although the window ends at the epoch", s.loc())
+                bad = True
+                continue
             evf = Form({EV_START: 1}) if col.name == "starttime" else Form({EV_START: 1, EV_DUR: 1})
             wf = Form.atom(W_START if p == "starttime" else W_END)
             lit = lit_from_forms(evf, op, wf)
